@@ -30,8 +30,8 @@ Proof. exact @atomic_machine_linearizable. Qed.
 Print Assumptions C04_atomic_section_linearizable.
 
 (* ... which covers today's single-critical-section methods of MemMapFs (Create, Open, Stat,
-   Remove, Rename, Chmod/Chown/Chtimes as modelled, and every file I/O method under the file
-   mutex), whatever the shape of the other methods: *)
+   Remove, Rename, Chown, and every file I/O method under the file mutex), whatever the shape
+   of the other methods: *)
 Theorem C04_single_section_methods_atomic : forall k c,
   ln_single_today (snd c) = true -> lin_atomic_op lin_step (ln_sec k) LnStart c.
 Proof. exact ln_single_today_atomic. Qed.
@@ -74,6 +74,18 @@ Theorem C04_refuted_removeall : forall k, sc_rmall_split k = true ->
 Proof. exact refuted_removeall. Qed.
 Print Assumptions C04_refuted_removeall.
 
+Theorem C04_refuted_chmod_rename : forall k, sc_chmod_split k = true ->
+  exists hist fin, produced_by_sections k w4_s0 hist fin /\
+    lin_check_mem w4_s0 hist fin = false /\ ~ linearizable lin_step lin_obs w4_s0 hist fin.
+Proof. exact refuted_chmod_rename. Qed.
+Print Assumptions C04_refuted_chmod_rename.
+
+Theorem C04_refuted_chtimes_rename : forall k, sc_chtimes_split k = true ->
+  exists hist fin, produced_by_sections k w4_s0 hist fin /\
+    lin_check_mem w4_s0 hist fin = false /\ ~ linearizable lin_step lin_obs w4_s0 hist fin.
+Proof. exact refuted_chtimes_rename. Qed.
+Print Assumptions C04_refuted_chtimes_rename.
+
 (* THE CODE AS IT IS TODAY (constants regenerated from memmap.go on every check): for each of the
    three methods, either its refutation applies, or — once it is repaired — it belongs to the
    fragment of C04_sections_linearizable.  The same proof script covers both states. *)
@@ -113,6 +125,26 @@ Proof.
 Qed.
 Print Assumptions C04_today_removeall.
 
+Theorem C04_today_chmod_chtimes :
+  (if sc_chmod_split ln_cfg_today
+   then exists hist fin, produced_by_sections ln_cfg_today w4_s0 hist fin /\
+          ~ linearizable lin_step lin_obs w4_s0 hist fin
+   else forall p m, ln_lin_ok ln_cfg_today (Chmod p m) = true) /\
+  (if sc_chtimes_split ln_cfg_today
+   then exists hist fin, produced_by_sections ln_cfg_today w4_s0 hist fin /\
+          ~ linearizable lin_step lin_obs w4_s0 hist fin
+   else forall p t, ln_lin_ok ln_cfg_today (Chtimes p t) = true).
+Proof.
+  split.
+  - destruct (sc_chmod_split ln_cfg_today) eqn:E.
+    + destruct (refuted_chmod_rename _ E) as (h & f & H1 & _ & H3). now exists h, f.
+    + intros. cbn [ln_lin_ok]. now rewrite E.
+  - destruct (sc_chtimes_split ln_cfg_today) eqn:E.
+    + destruct (refuted_chtimes_rename _ E) as (h & f & H1 & _ & H3). now exists h, f.
+    + intros. cbn [ln_lin_ok]. now rewrite E.
+Qed.
+Print Assumptions C04_today_chmod_chtimes.
+
 (* "Exactly one of several concurrent Mkdir calls for the same name succeeds": ANY number of
    threads, each calling Mkdir of one free (normalised) name with any permissions, under ANY
    interleaving of their sections, whatever the configuration: when all have returned, exactly
@@ -135,18 +167,19 @@ Print Assumptions C04_checker_correct.
 (* today's configuration as read from the source *)
 Example C04_cfg_today_value :
   (sc_open_split ln_cfg_today, sc_open_setmode ln_cfg_today, sc_mkdir_setmode ln_cfg_today, sc_rmall_split ln_cfg_today)
-  = (Z.eqb lin_openfile_split 1, Z.eqb lin_openfile_setmode 1, Z.eqb lin_mkdir_setmode 1, negb (Z.eqb lin_removeall_locks 1)).
-Proof. reflexivity. Qed.
+  = (Z.eqb lin_openfile_split 1, Z.eqb lin_openfile_setmode 1, Z.eqb lin_mkdir_setmode 1, negb (Z.eqb lin_removeall_locks 1))
+  /\ (sc_chmod_split ln_cfg_today, sc_chtimes_split ln_cfg_today) = (negb (Z.eqb lin_chmod_locks 1), negb (Z.eqb lin_chtimes_locks 1)).
+Proof. split; reflexivity. Qed.
 
 (* the excl-create witness: both calls return a handle; run one after the other the second
    gets "exists" *)
 Example C04_excl_witness_two_winners :
-  map lc_res (lg_lin (ln_run (mkCfg true true true true) lin_init w1_progs w1_sched)) = [RHandle 0; RHandle 0]
+  map lc_res (lg_lin (ln_run (mkCfg true true true true true true) lin_init w1_progs w1_sched)) = [RHandle 0; RHandle 0]
   /\ snd (lin_replay lin_step lin_init (concat w1_progs)) = [RHandle 0; RErr (EW KExist)].
 Proof. split; vm_compute; reflexivity. Qed.
 
 Example C04_mkdir_witness :
-  map (fun x => (lc_op x, lc_res x)) (lg_lin (ln_run (mkCfg true true true true) lin_init w2_progs w2_sched)) =
+  map (fun x => (lc_op x, lc_res x)) (lg_lin (ln_run (mkCfg true true true true true true) lin_init w2_progs w2_sched)) =
   [((None, Remove w_d), ROk); ((None, Mkdir w_d 493), RErr (EW KNotExist))].
 Proof. vm_compute. reflexivity. Qed.
 
@@ -159,8 +192,8 @@ Proof. split; vm_compute; reflexivity. Qed.
 
 (* three concurrent Mkdir of /d under an interleaved schedule: exactly one ok *)
 Example C04_mkdir_three :
-  cnt mk_won (lg_lin (ln_run (mkCfg true true true true) lin_init (mk_progs w_d [448; 493; 511])
+  cnt mk_won (lg_lin (ln_run (mkCfg true true true true true true) lin_init (mk_progs w_d [448; 493; 511])
       [0; 1; 2; 0; 1; 2; 2; 1; 0; 0; 1; 2; 0; 1; 2; 0; 1; 2]%nat)) = 1%nat
-  /\ lin_quiescent (ln_run (mkCfg true true true true) lin_init (mk_progs w_d [448; 493; 511])
+  /\ lin_quiescent (ln_run (mkCfg true true true true true true) lin_init (mk_progs w_d [448; 493; 511])
       [0; 1; 2; 0; 1; 2; 2; 1; 0; 0; 1; 2; 0; 1; 2; 0; 1; 2]%nat) = true.
 Proof. split; vm_compute; reflexivity. Qed.
